@@ -9,10 +9,12 @@ from harness.props._c06_common import F, fs
 PID = "C07"
 VO = ["theories/Reductions/Moments.vo", "theories/Reductions/Moments_proofs.vo",
       "theories/Reductions/Reduction.vo", "theories/Reductions/Reduction_proofs.vo",
-      "theories/Reductions/MomentsIO.vo", "theories/Base/Flat.vo"]
+      "theories/Reductions/MomentsIO.vo", "theories/Base/Flat.vo",
+      # the BoundedGroupLoss cases reuse C06's term, which also evaluates the MeanLoss model
+      "theories/Reductions/MomentBridge.vo", "theories/Reductions/MomentBridgeIO.vo"]
 PROPS_FILES = ["props/C07.v"]
 TRANSLATORS = ["t_moments"]
-REQUIRES = ["From FL Require Import Num Flat Moments Reduction MomentsIO."]
+REQUIRES = ["From FL Require Import Num Flat Moments Reduction MomentsIO MomentBridge MomentBridgeIO."]
 SHARD = 25
 CHUNK = 2
 CASE_TIMEOUT = 1200      # wall-clock alarm per case; a case needs ~1-3 s, the margin absorbs a heavily shared machine
